@@ -1,5 +1,5 @@
 //! Shared oracle plumbing: comparing a view's output sequence with a reference sequence.
-use crate::catalog::Spec;
+use crate::catalog::{echo, rebase, Spec};
 use crate::core::*;
 use crate::exec::*;
 use crate::q::XV;
@@ -277,5 +277,78 @@ pub fn def_check_ultra_q(id: String, vd: DefView) -> impl Fn(&Case) -> Verdict +
             l.push("flat_checkpoints_skipped".into());
         }
         Verdict::pass(compared >= 8 && len > 70_000, l)
+    }
+}
+
+/// chained variant: the view over another view (Sma, Max, Min of window M, or GTE / LTE at a clip on the value grid) instead of over
+/// Echo. The definition is applied to what that inner view delivers (an exact stand-alone run of it); before the first delivery
+/// the outer view must report nothing. A view that looks at the raw input anywhere, or seeds state before its inner view has
+/// answered, is bit-identical over Echo and fails here.
+pub fn def_strategy_chained(vd: DefView) -> impl Fn(Tier) -> BoxedStrategy<Case> + Send + Sync {
+    move |tier: Tier| {
+        let vd = vd.clone();
+        (gen::window(tier, vd.min_n, 12, 40), 2usize..=5, 0usize..5, gen::dyadic_scale(), -40i64..=40)
+            .prop_flat_map(move |(n, m, which, sc, c)| {
+                let clip = (c * sc.0) as f64 / sc.1 as f64 * 16.0;
+                let inner = [Spec::Sma(echo(), m), Spec::Max(echo(), m), Spec::Min(echo(), m), Spec::Gte(echo(), clip), Spec::Lte(echo(), clip)][which].clone();
+                let spec = rebase(&(vd.mk)(n), &inner);
+                let mut cfg = StreamCfg::new(n).scale(sc).len(0, 4 * n + 3 * m + 8);
+                if vd.positive {
+                    cfg = cfg.positive();
+                }
+                gen::stream(cfg).prop_map(move |xs| Case { spec: Some(spec.clone()), spec2: Some(inner.clone()), xs, a: Rat(1, 1), b: Rat(0, 1), ..Default::default() })
+            })
+            .boxed()
+    }
+}
+pub const CHAINED_RULE: &str = "the view (N from its minimum to 12, thorough ..40) over Sma, Max or Min of window M in 2..5, or over GTE / LTE with a clip on the value grid, instead of over Echo; grammar stream of 0..4N+3M+8 values. Oracle: the batch definition applied to the values a stand-alone exact run of the inner view delivers, at every step; before the first delivery the view must keep answering what it answered before any update. Non-trivial: at least 2N+2 delivered values, not all equal.";
+pub fn def_check_chained_q(id: String, vd: DefView) -> impl Fn(&Case) -> Verdict + Send + Sync {
+    move |case: &Case| {
+        let spec = case.spec();
+        let inner = case.spec2.as_ref().expect("inner view");
+        let n = spec.own_windows().first().copied().unwrap_or(1);
+        let h = bigs(&case.xs);
+        let inner_out = run_q(inner, &h);
+        let mut delivered: Vec<R> = vec![];
+        let mut upto: Vec<usize> = Vec::with_capacity(h.len());
+        for o in &inner_out {
+            if let Some(v) = o {
+                match v.fin() {
+                    Some(r) => delivered.push(r.clone()),
+                    None => return Verdict::Discard("inner view left the finite domain".into()),
+                }
+            }
+            upto.push(delivered.len());
+        }
+        if vd.positive && delivered.iter().any(|r| r <= &R::from_integer(0.into())) {
+            return Verdict::Discard("inner output not positive".into());
+        }
+        let wants_d = (vd.reference)(&delivered, n);
+        let outs = run_q(spec, &h);
+        let maxabs = max_abs(delivered.iter()) + R::from_integer(1.into());
+        let irr = vd.irr;
+        // before the first delivery the view keeps answering what it answered before any update (nothing, for most views; CTI,
+        // for one, answers 0 from the start)
+        let initial = {
+            use sliding_features::View;
+            crate::catalog::build::<crate::q::Q>(spec).last().map(|o| o.extract())
+        };
+        for t in 0..h.len() {
+            if upto[t] == 0 {
+                if outs[t] != initial {
+                    return Verdict::fail(format!("{id}|readiness"), format!("{} [Q] step {t}: reports {} although its inner view has delivered nothing yet (before any update it reported {}); input {}", spec.show(), show_opt(&outs[t]), show_opt(&initial), show_rats(&case.xs)));
+                }
+                continue;
+            }
+            let want = wants_d[upto[t] - 1].clone();
+            let tol = |_: usize| if irr { tol_q_irr(&(&maxabs * &maxabs)) } else { tol_q(&maxabs) };
+            if let Err(m) = compare_q(&outs[t..=t], &[want], &tol) {
+                return Verdict::fail(format!("{id}|{}", m.aspect), format!("{} [Q] step {t} ({}): {}; the inner view had delivered {} values by then: {}; input {}", spec.show(), m.aspect, m.detail, upto[t], show_bigs(&delivered[..upto[t]]), show_rats(&case.xs)));
+            }
+        }
+        let mut d = delivered.clone();
+        d.sort();
+        d.dedup();
+        Verdict::pass(delivered.len() >= 2 * n + 2 && d.len() >= 2, vec![inner.name().to_string()])
     }
 }
